@@ -110,3 +110,5 @@ def register(db):
                     header="ns_map.items()")],
         properties=["C03"],
     ))
+
+    # is_ncname: see c_scanners.py (array-encoded strings)
